@@ -18,7 +18,7 @@ use std::{
     sync::atomic::{AtomicUsize, Ordering},
 };
 
-use parking_lot::{Mutex, RwLock};
+use crate::sync_compat::{Mutex, RwLock};
 use serde::{Deserialize, Serialize};
 
 use crate::entity_index::EntityId;
